@@ -97,6 +97,9 @@ func buildPDF(n int, blank map[int]bool) []byte {
 			txt := marker(p, which)
 			pg.Lines = append(pg.Lines, pdfw.Line{Font: 0, Size: 12, X: float64(72 + 7*p), Y: float64(650 - 120*k - 11*p), Bytes: []byte(txt), Text: txt})
 		}
+		// a section title in large type: material for heading detection (Document().TableOfContents())
+		ht := marker(p, "head")
+		pg.Lines = append(pg.Lines, pdfw.Line{Font: 0, Size: 22, X: 72, Y: 688, Bytes: []byte(ht), Text: ht})
 		// a running header on every page but the first (a cover page) and a numbered footer on every page, both in
 		// the margin bands: material for the exclusion options. Whether tabula removes them is not judged here;
 		// only that a selection behaves like the same pages of the whole document (composition clause).
@@ -105,6 +108,10 @@ func buildPDF(n int, blank map[int]bool) []byte {
 		}
 		ft := footerText(p)
 		pg.Lines = append(pg.Lines, pdfw.Line{Font: 0, Size: 10, X: 280, Y: 30, Bytes: []byte(ft), Text: ft})
+		if p%2 == 1 {
+			// the page ends with the graphics state changed and not restored (legal: it ends with the page)
+			pg.Trailer = "1 0 0 1 13 -9 cm 3 Tc 80 Tz 17 TL"
+		}
 		doc.Pages = append(doc.Pages, pg)
 	}
 	return pdfw.Write([]pdfw.Doc{doc}, pdfw.Layout{}).Bytes
@@ -276,10 +283,18 @@ func run(e *tabula.Extractor, op string) result {
 			Number int
 			Text   string
 			Width  float64
+			TOC    []string // "page|text" of the table-of-contents entries whose text lies on this page
 		}
 		var out []pg
 		for _, p := range d.Pages {
-			out = append(out, pg{p.Number, p.ExtractText(), p.Width})
+			out = append(out, pg{Number: p.Number, Text: p.ExtractText(), Width: p.Width})
+		}
+		for _, e := range d.TableOfContents() {
+			for i := range out {
+				if strings.Contains(out[i].Text, strings.TrimSpace(e.Text)) && strings.TrimSpace(e.Text) != "" {
+					out[i].TOC = append(out[i].TOC, fmt.Sprintf("%d|%s", e.Page, strings.TrimSpace(e.Text)))
+				}
+			}
 		}
 		return result{false, out}
 	case "chunks":
@@ -345,7 +360,7 @@ func groundTruth(op string, r result, selAll []int, n int, blank map[int]bool) e
 	case "fragments":
 		var want []string
 		for _, p := range sel {
-			for _, which := range []string{"top", "mid", "bot"} {
+			for _, which := range []string{"top", "mid", "bot", "head"} {
 				want = append(want, marker(p, which))
 			}
 		}
@@ -363,6 +378,7 @@ func groundTruth(op string, r result, selAll []int, n int, blank map[int]bool) e
 			Number int
 			Text   string
 			Width  float64
+			TOC    []string
 		}
 		_ = json.Unmarshal(js, &pgs)
 		if len(blank) > 0 {
@@ -392,6 +408,11 @@ func groundTruth(op string, r result, selAll []int, n int, blank map[int]bool) e
 			}
 			if pg.Number != sel[k] {
 				return fmt.Errorf("Document().Pages[%d].Number = %d but its text is that of source page %d", k, pg.Number, sel[k])
+			}
+			for _, e := range pg.TOC {
+				if !strings.HasPrefix(e, fmt.Sprintf("%d|", sel[k])) && strings.Contains(e, words[sel[k]-1]) {
+					return fmt.Errorf("Document().TableOfContents() has the entry %q (page|text); its text stands on source page %d", e, sel[k])
+				}
 			}
 			if pg.Width != pageWidth(sel[k]) {
 				return fmt.Errorf("Document().Pages[%d] (source page %d) reports width %g, the page is %g wide", k, sel[k], pg.Width, pageWidth(sel[k]))
@@ -522,6 +543,34 @@ func checkCase(c Case) error {
 						// exactly the per-page results: without the exclusion options (which look at the whole document)
 						// the text of a selection is the text of each of its pages alone, joined by one blank line;
 						// pages without text contribute nothing, not even a separator
+						if st.Op == "fragments" {
+							// the fragments of a selection are the fragments of its pages read alone, one page after the
+							// other (the options do not touch Fragments(); exclusion is judged by the composition clause)
+							excl := false
+							for _, cl := range cf.calls {
+								excl = excl || (cl.Kind == "opt" && strings.HasPrefix(cl.Opt, "Exclude"))
+							}
+							if !excl {
+								var want []string
+								for _, p := range sel {
+									k := fmt.Sprintf("frags:%d", p)
+									if _, ok := pageText[k]; !ok {
+										one := run(fresh(path, config{calls: []Call{{Kind: "pages", List: []int{p}}}}), "fragments")
+										if one.Err {
+											return fmt.Errorf("%s: Fragments() of page %d alone failed", where, p)
+										}
+										pageText[k] = strings.Join(one.Value.([]string), "\x00")
+									}
+									if pageText[k] != "" {
+										want = append(want, strings.Split(pageText[k], "\x00")...)
+									}
+								}
+								gotF, _ := got.Value.([]string)
+								if strings.Join(gotF, "\x00") != strings.Join(want, "\x00") {
+									return fmt.Errorf("%s (config %+v): Fragments() of the selection %v are not the fragments of its pages read alone:\n got  %.300q\n want %.300q", where, cf.calls, sel, gotF, want)
+								}
+							}
+						}
 						if st.Op == "text" {
 							var optsOnly config
 							key, excl := "", false
@@ -548,6 +597,7 @@ func checkCase(c Case) error {
 										parts = append(parts, pageText[k])
 									}
 								}
+								_ = 0
 								if want := strings.Join(parts, "\n\n"); got.Value.(string) != want {
 									return fmt.Errorf("%s (config %+v, blank pages %v): Text() of the selection %v is not the per-page texts joined by a blank line:\n got  %q\n want %q", where, cf.calls, c.Blank, sel, got.Value, want)
 								}
